@@ -33,7 +33,7 @@ type newDerefChecker struct {
 func (c *newDerefChecker) VisitExpr(expr ast.Expr) {
 	deref := astcast.ToStarExpr(expr)
 	call := astcast.ToCallExpr(deref.X)
-	if astcast.ToIdent(call.Fun).Name == "new" {
+	if resolvedQualifiedName(c.ctx, call.Fun) == "new" {
 		typ := c.ctx.TypeOf(call.Args[0])
 		// allow *new(T) if T is a type parameter, see #1272 for details
 		if _, ok := typ.(*types.TypeParam); ok {
